@@ -1,6 +1,7 @@
 import CoapVerif.Lemmas.MsgLayer
 import CoapVerif.Lemmas.MsgLayerX
 import CoapVerif.Lemmas.MsgHold
+import CoapVerif.Lemmas.MsgLedger
 /-
 C08 — NSTART: a session never has more than NSTART Confirmable messages in flight; messages beyond the limit
 (and anything submitted before the session is established) are held and later transmitted exactly once each, in
@@ -198,11 +199,12 @@ theorem icmp_changes_only_output (l : L) (s : Nat) :
   · rename_i n _; exact ⟨rfl, rfl, rfl, n.mid, true, rfl⟩
   · exact ⟨rfl, rfl, rfl, 0, false, rfl⟩
 
-/-- With keepalive off the extended model does to the message layer what the base model does (all base events
+/-- With keepalive off and UDP sessions only the extended model does to the message layer what the base model does (all base events
 but the arrival of a NON response, where it follows the pointer walk of `coap_cancel_all_messages`): the
 theorems above specialise to the base theorems' runs. -/
-theorem x_agrees_with_base (lx : LX) (e : Ev) (h : lx.pingTimeout = 0) (hn : ∀ s mid tok, e ≠ .rxNon s mid tok) :
-    (stepX lx (.base e)).l = step lx.l e ∧ (stepX lx (.base e)).pingTimeout = 0 := stepX_base lx e h hn
+theorem x_agrees_with_base (lx : LX) (e : Ev) (h : lx.pingTimeout = 0) (hn : ∀ s mid tok, e ≠ .rxNon s mid tok)
+    (hu : ∀ s, lx.proto s = .udp) :
+    (stepX lx (.base e)).l = step lx.l e ∧ (stepX lx (.base e)).pingTimeout = 0 := stepX_base lx e h hn hu
 
 /-- a submission whose token is its message id is the base model's submission -/
 theorem submitT_mid_is_submit (l : L) (s : Nat) (con : Bool) (mid r : Nat) :
@@ -288,5 +290,172 @@ example :
     let lx := runX (initX 1000 [{ nstart := 2 }])
       [.base (.submit 0 true 1 128), .submitT 0 true 2 255 7, .submitT 0 true 3 0 7, .base (.rxNon 0 900 7)]
     (lx.l.q.nodes.map (·.mid)) = [3, 1] ∧ (lx.l.getS 0).conActive = 2 ∧ inflight lx.l 0 = 2 := by decide
+
+/-! ## (round 4) piggy-backed responses; DTLS sessions -/
+
+/-- (7) A piggy-backed response - an ACK that carries a response code and a token - concludes the exchange of the
+message whose ID it carries and of NO OTHER: whatever token it carries, whether or not its id matches anything,
+duplicate or not, every other message waiting for its acknowledgement (any session `s'`, any id `m'` other than
+the acknowledged one) is still in the send queue afterwards.  (`coap_session_connected` may add messages.) -/
+theorem piggybacked_ack_concludes_only_its_own (l : L) (s mid : Nat) (dup : Bool) (s' m' : Nat)
+    (h : ¬ (s' = s ∧ m' = mid)) :
+    l.q.nodes.countP (fun n => decide (n.sess = s' ∧ n.mid = m')) ≤
+      (rxAckP l s mid dup).q.nodes.countP (fun n => decide (n.sess = s' ∧ n.mid = m')) := by
+  apply rxAckP_countP_le _ (tstable_key s' m')
+  intro n hs hm
+  simp only [decide_eq_false_iff_not]
+  intro hk
+  exact h ⟨hk.1.symm.trans hs, hk.2.symm.trans hm⟩
+
+/-- (7') A piggy-backed response whose message id is NOT in the send queue - the network's duplicate of one
+already processed, one arriving after its request was given up, a stray - changes nothing but the output (the
+response handler call, unless it is recognised as a duplicate): the send queue, `con_active`, the delay queues of
+all sessions are as before.  In particular it does not free a slot that belongs to another Confirmable carrying
+the same token, and it releases no held message. -/
+theorem unmatched_piggybacked_ack_changes_only_output (l : L) (s mid : Nat) (dup : Bool)
+    (h : l.q.nodes.countP (fun n => decide (n.sess = s ∧ n.mid = mid)) = 0) :
+    (rxAckP l s mid dup).q = l.q ∧ (rxAckP l s mid dup).sess = l.sess ∧ (rxAckP l s mid dup).now = l.now ∧
+    ((rxAckP l s mid dup).out = l.out ∨ (rxAckP l s mid dup).out = Out.rsp l.now s mid :: l.out) := by
+  have hq : rxAck l s mid = l := by
+    unfold rxAck
+    rcases hr : removeNode l.q.nodes s mid with ⟨res, rest⟩
+    cases res with
+    | none => have := (removeNode_none _ _ _ _ hr).1; subst this; rfl
+    | some n =>
+      have hm := removeNode_some (fun n => decide (n.sess = s ∧ n.mid = mid)) (tstable_key s mid) _ _ _ _ _ hr
+      have : l.q.nodes.countP (fun n => decide (n.sess = s ∧ n.mid = mid)) ≥ 1 := by
+        rw [hm.2.2.2]; simp [hm.2.1, hm.2.2.1]
+      omega
+  unfold rxAckP
+  simp only [hq]
+  cases dup
+  · exact ⟨rfl, rfl, rfl, Or.inr rfl⟩
+  · exact ⟨rfl, rfl, rfl, Or.inl rfl⟩
+
+/-- (1d)/(2d) `con_active` = in flight <= NSTART on EVERY datagram transport: for every list of sessions, each a UDP
+or a DTLS session (`ds`), and every sequence of base and extended events (submissions, ACK / RST / piggy-backed
+and separate responses, retransmissions, failures - which leave a DTLS session in state NONE, a UDP session
+ESTABLISHED -, keepalive).  The guard of every `con_active` update, `COAP_PROTO_NOT_RELIABLE(session->proto)`,
+is open for both (`notReliable_datagram`). -/
+theorem con_active_eq_inflight_le_nstart_dtls (ss : List Sess) (ds : List Bool) (t0 : Nat) (evs : List EvX) (s : Nat)
+    (hss : ∀ se ∈ ss, se.conActive = 0 ∧ se.delayq = [] ∧ se.nstart ≤ 255) (hs : s < ss.length) :
+    ((runX (initXP t0 ss ds) evs).l.getS s).conActive = inflight (runX (initXP t0 ss ds) evs).l s ∧
+    inflight (runX (initXP t0 ss ds) evs).l s ≤ ((runX (initXP t0 ss ds) evs).l.getS s).nstart := by
+  have h := wfX_run evs _ (show WF (initXP t0 ss ds).l from wf_init t0 ss hss)
+  have hl := (runX_star evs (initXP t0 ss ds) s hs).len
+  have := h.2 s (by rw [hl]; exact hs)
+  exact ⟨this.1, this.2.1⟩
+
+/-- (6d) no idle hold on every datagram transport -/
+theorem no_idle_hold_dtls (ss : List Sess) (ds : List Bool) (t0 : Nat) (evs : List EvX) (s : Nat)
+    (hss : ∀ se ∈ ss, se.conActive = 0 ∧ se.delayq = [] ∧ se.nstart ≤ 255) (hs : s < ss.length)
+    (he : ((runX (initXP t0 ss ds) evs).l.getS s).est = true) :
+    ∀ n ∈ ((runX (initXP t0 ss ds) evs).l.getS s).delayq.head?,
+      n.con = true ∧ inflight (runX (initXP t0 ss ds) evs).l s = ((runX (initXP t0 ss ds) evs).l.getS s).nstart := by
+  have hw := wfX_run evs _ (show WF (initXP t0 ss ds).l from wf_init t0 ss hss)
+  have hn := nihX_run evs _ (show WF (initXP t0 ss ds).l from wf_init t0 ss hss) (nih_init t0 ss hss)
+  have hlt : s < (runX (initXP t0 ss ds) evs).l.sess.length := by
+    rw [(runX_star evs (initXP t0 ss ds) s hs).len]; exact hs
+  intro n hm
+  have h1 := hn s hlt he n hm
+  have h2 := hw.2 s hlt
+  exact ⟨h1.1, by omega⟩
+
+/-- (5d) the failure of a DTLS session reports what the failure of a UDP session reports - every held Confirmable
+by exactly one NACK, in order (`failure_nacks_each_held_once`) - and empties the delay queue; the session is then
+NOT established (a UDP session is). -/
+theorem failure_dtls (l : L) (s : Nat) (hs : s < l.sess.length) :
+    (disconnectP .dtls l s).out = (disconnect l s).out ∧ (disconnectP .dtls l s).q = (disconnect l s).q ∧
+    ((disconnectP .dtls l s).getS s).delayq = [] ∧ ((disconnectP .dtls l s).getS s).est = false ∧
+    ((disconnectP .udp l s).getS s).est = true := by
+  have hd := (failure_nacks_each_held_once l s hs).choose_spec.choose_spec.2.1
+  have hlen : s < (disconnect l s).sess.length := by rw [(disconnect_frame l s).len]; exact hs
+  refine ⟨rfl, rfl, ?_, ?_, ?_⟩
+  · simp only [disconnectP]; rw [getS_setS_same hlen]; exact hd
+  · simp only [disconnectP]; rw [getS_setS_same hlen]
+  · exact disconnect_est l s hs
+
+/-! ### "in flight (sent and neither acknowledged, reset nor given up)": a message leaves only when its exchange is concluded
+
+`led s mid gT l` (Lemmas/MsgLedger.lean) = number of Confirmables of session `s` with message id `mid` in the send queue
+(in flight) + in the delay queue of `s` (held; a retransmission goes back there while the session is not established) +
+number of TOO_MANY_RETRIES reports for (`s`, `mid`) (given up).  `Concludes l s mid e`: the event `e` is an ACK (empty,
+invalid code, piggy-backed response) or RST carrying that id, a separate response carrying the token of a message with that id,
+or the failure of session `s`. -/
+
+/-- (8) For EVERY event that does not conclude the exchange of message (`s`, `mid`) - submissions, timer runs with
+retransmissions and give-ups of any message, ACK / RST / responses for OTHER messages incl. duplicated and stray piggy-backed
+responses carrying the SAME token, ICMP errors, keepalive, other sessions failing - the ledger of that message does not
+decrease: a Confirmable that is in flight stays in the send queue, counted by `con_active` (theorems (1), (2)), or is
+reported to the NACK handler as given up; it is never dropped silently, so its slot is never handed to another message
+while it is "sent and neither acknowledged, reset nor given up". -/
+theorem in_flight_until_concluded (lx : LX) (e : EvX) (s mid : Nat) (hw : WF lx.l) (hs : s < lx.l.sess.length)
+    (hn : ¬ Concludes lx.l s mid e) : led s mid gT lx.l ≤ led s mid gT (stepX lx e).l :=
+  led_stepX s mid lx e hw hs hn
+
+/-- (8) along runs: from any reachable state (after `evs1`, any mix of UDP and DTLS sessions), as long as no event of
+`evs2` concludes the message, its ledger does not decrease. -/
+theorem in_flight_until_concluded_run (ss : List Sess) (ds : List Bool) (t0 : Nat) (evs1 evs2 : List EvX) (s mid : Nat)
+    (hss : ∀ se ∈ ss, se.conActive = 0 ∧ se.delayq = [] ∧ se.nstart ≤ 255) (hs : s < ss.length)
+    (hn : ∀ (pre : List EvX) (e : EvX) (post : List EvX), evs2 = pre ++ e :: post →
+      ¬ Concludes (runX (runX (initXP t0 ss ds) evs1) pre).l s mid e) :
+    led s mid gT (runX (initXP t0 ss ds) evs1).l ≤ led s mid gT (runX (runX (initXP t0 ss ds) evs1) evs2).l := by
+  have hw := wfX_run evs1 _ (show WF (initXP t0 ss ds).l from wf_init t0 ss hss)
+  have hl := (runX_star evs1 (initXP t0 ss ds) s hs).len
+  exact led_runX s mid evs2 _ hw (by rw [hl]; exact hs) hn
+
+/-! ### non-vacuity of the round-4 statements -/
+
+/-- (8) on the scenario of (7'): message 102 (token 7, in flight after A's response) has ledger 1; the duplicate of A's
+response - same token 7 - does not conclude it (the hypothesis of (8) holds) and its ledger is still 1: it is still in the
+send queue.  (In the seeded variant C08-12 the ledger drops to 0 here.) -/
+example :
+    let lx := runX (initX 1000 [{ nstart := 1 }])
+      [.submitT 0 true 101 0 7, .submitT 0 true 102 0 7, .submitT 0 true 103 0 7, .rxAckP 0 101 7]
+    ¬ Concludes lx.l 0 102 (.rxAckP 0 101 7) ∧ led 0 102 gT lx.l = 1 ∧ led 0 102 gT (stepX lx (.rxAckP 0 101 7)).l = 1 ∧
+    (stepX lx (.rxAckP 0 101 7)).l.q.nodes.countP (pq 0 102 gT) = 1 := by
+  refine ⟨fun h => absurd h.2 (by decide), by decide, by decide, by decide⟩
+
+/-- (8) is not vacuous for a separate response either: NSTART = 2, message 1 (token 1) and message 2 (token 7) in flight;
+a NON response with token 7 does not conclude message 1, whose ledger stays 1, and concludes message 2 -/
+example :
+    let lx := runX (initX 1000 [{ nstart := 2 }]) [.base (.submit 0 true 1 0), .submitT 0 true 2 0 7]
+    ¬ Concludes lx.l 0 1 (.base (.rxNon 0 900 7)) ∧ Concludes lx.l 0 2 (.base (.rxNon 0 900 7)) ∧
+    led 0 1 gT (stepX lx (.base (.rxNon 0 900 7))).l = 1 ∧ led 0 2 gT (stepX lx (.base (.rxNon 0 900 7))).l = 0 := by
+  refine ⟨?_, ?_, by decide, by decide⟩
+  · intro h
+    rcases h.2 with ⟨n, hn, _, h2, h3⟩ | ⟨n, hn, _⟩
+    · revert n; decide
+    · revert n; decide
+  · exact ⟨rfl, Or.inl (by decide)⟩
+
+
+/-- the scenario of (7'): NSTART = 1, three Confirmables A, B, C (101, 102, 103) share token 7.  A is answered by
+a piggy-backed response: B goes out.  The network's duplicate of that response arrives while B is unacknowledged:
+B is still in flight, `con_active` = 1, C is still held, nothing was transmitted, the response handler is not
+called a second time. -/
+example :
+    let lx := runX (initX 1000 [{ nstart := 1 }])
+      [.submitT 0 true 101 0 7, .submitT 0 true 102 0 7, .submitT 0 true 103 0 7, .rxAckP 0 101 7]
+    let lx' := stepX lx (.rxAckP 0 101 7)
+    (lx.l.q.nodes.map (·.mid)) = [102] ∧ ((lx.l.getS 0).delayq.map (·.mid)) = [103] ∧
+    (lx'.l.q.nodes.map (·.mid)) = [102] ∧ (lx'.l.getS 0).conActive = 1 ∧ ((lx'.l.getS 0).delayq.map (·.mid)) = [103] ∧
+    lx'.l.out = lx.l.out ∧
+    lx.l.q.nodes.countP (fun n => decide (n.sess = 0 ∧ n.mid = 101)) = 0 := by decide
+
+/-- a DTLS session (NSTART = 1): a burst of three Confirmables on the established session puts ONE in flight and
+holds two; the session's failure reports 101 (in flight; twice: DESIGN §5 row 22), 102 and 103 (held, once each)
+and leaves the session not established with nothing counted -/
+example :
+    let lx := runX (initXP 1000 [{ nstart := 1 }] [true])
+      [.base (.submit 0 true 101 0), .base (.submit 0 true 102 0), .base (.submit 0 true 103 0)]
+    let lx' := stepX lx (.base (.disconnect 0))
+    lx.proto 0 = .dtls ∧ (lx.l.getS 0).conActive = 1 ∧ inflight lx.l 0 = 1 ∧ ((lx.l.getS 0).delayq.map (·.mid)) = [102, 103] ∧
+    (lx'.l.getS 0).est = false ∧ (lx'.l.getS 0).conActive = 0 ∧ inflight lx'.l 0 = 0 ∧ (lx'.l.getS 0).delayq = [] ∧
+    (lx'.l.out.take 4) = [Out.nack 1000 0 .undeliv 101 true, Out.nack 1000 0 .undeliv 103 true,
+      Out.nack 1000 0 .undeliv 102 true, Out.nack 1000 0 .undeliv 101 true] := by decide
+
+/-- `x_agrees_with_base`'s new hypothesis holds for every line without DTLS sessions -/
+example : ∀ s, (initX 1000 [{ nstart := 1 }]).proto s = .udp := proto_udp_of_nil _ rfl
 
 end Coap.C08
